@@ -25,7 +25,8 @@ theorem accepted_hypercube_eq_interp (r : RawLatFull) (c : LatCfg) (h : verifyLa
 
 /-- **T2 (range) for accepted configurations**: for in-range or clipped inputs the hypercube AND
 the simplex output stay within any bounds `lo ≤ K ≤ hi` of the kernel (the simplex evaluation
-does not raise). -/
+does not raise). (Unclipped out-of-range inputs are outside the property: `C02_T2_range_needs_defined`,
+`C02_T3_simplex_range_needs_defined`.) -/
 theorem accepted_range (r : RawLatFull) (c : LatCfg) (h : verifyLattice r = .ok c)
     (form : InputForm) (clipOn : Bool) (K : W) (x : List ℚ) (lo hi : ℚ) (hx : Defined clipOn c.toLat.sizes x)
     (hK : ∀ idx ∈ allIdx c.toLat.sizes, lo ≤ K idx ∧ K idx ≤ hi) :
@@ -37,7 +38,9 @@ theorem accepted_range (r : RawLatFull) (c : LatCfg) (h : verifyLattice r = .ok 
 
 /-- **T4 (monotonicity) for accepted configurations**: a kernel non-decreasing along dimension `d`
 gives a hypercube output and a simplex output that do not decrease when coordinate `d` grows —
-for every pair of in-range or clipped points that differ only in coordinate `d`. -/
+for every pair of in-range or clipped points that differ only in coordinate `d`. (`Defined` for both
+points: `clip_inputs=False` with an out-of-range coordinate is outside property C02 and the statement
+is false there, `Props/C02Outside.lean`.) -/
 theorem accepted_monotone (r : RawLatFull) (c : LatCfg) (h : verifyLattice r = .ok c)
     (form : InputForm) (clipOn : Bool) (K : W) (x : List ℚ) (d : Nat) (v : ℚ) (hd : d < c.toLat.sizes.length)
     (hm : MonoAx c.toLat.sizes d K) (hx : Defined clipOn c.toLat.sizes x)
